@@ -33,10 +33,31 @@ def names(atoms, f):
     return sorted(out)
 
 
+# parameter positions (MIR locals; self = 1) by role, so that renaming a parameter in the source changes nothing.
+# Trait methods: the order is fixed by the trait; inherent helpers: confirmed by reading, a change of arity fails the anchor.
+SIG = {
+    "verify_init": {"verify_key": 2, "ctx": 3, "agg_id": 4, "agg_param": 5, "nonce": 6, "public_share": 7, "msg": 8, "input_share": 8},
+    "verify_next": {"ctx": 2, "step": 3, "msg": 4},
+    "verifier_shares_to_message": {"ctx": 2, "agg_param": 3, "inputs": 4},
+    "eval_and_sketch": {"verify_key": 2, "ctx": 3, "agg_id": 4, "nonce": 5, "agg_param": 6, "public_share": 7, "idpf_key": 8, "corr_prng": 9},
+    "eval": {"agg_id": 2, "public_share": 3, "key": 4, "prefix": 5, "ctx": 6, "nonce": 7, "cache": 8},
+}
+ARITY = {"verify_init": 8, "verify_next": 4, "eval_and_sketch": 9, "eval": 8}
+
+
+def pidx(f, p):
+    if not isinstance(p, str):
+        return p
+    t = SIG.get(f.name)
+    if t is not None and p in t and f.body.argc == ARITY.get(f.name, f.body.argc):
+        return t[p]
+    return f.param_index(p)
+
+
 def need(ctx, rule, key, atoms, f, params=(), consts=(), fields=(), what="", loc=None):
     missing = []
     for p in params:
-        idx = f.param_index(p) if isinstance(p, str) else p
+        idx = pidx(f, p)
         if idx is None or not depmod.has_param(atoms, idx):
             missing.append(p)
     for c in consts:
@@ -84,7 +105,7 @@ def run(ctx):
                          what="the joint-randomness seed kept for comparison", loc="%s:%s" % (f.file, s.line))
                     sh = fa.operand_deps(flds["share"])
                     key = rule + ":state.share-not-nonce"
-                    if depmod.has_param(sh, f.param_index("nonce")):
+                    if depmod.has_param(sh, pidx(f, "nonce")):
                         ctx.bad(rule, key, "the state's measurement share (source of the output share) depends on the nonce; a consistently "
                                            "substituted nonce would change honest output shares of types without joint randomness", loc=f.loc)
                     else:
